@@ -9,14 +9,14 @@ RUN_MODULE = "Run.Run_C04"
 GEN_FILES = ["Gen_types.v"]
 RULE = ("pairs of lint-clean blackbox-free circuits (<= 9 nodes each, all gate types, constants): identical, restructured at dump level "
         "(De Morgan, operand splitting, inserted buffers, double inversion), one-gate mutants (type change, operand change), unrelated, and "
-        "self-miters (c1 omitted / empty); startpoints/endpoints: default, explicit empty (= default), every kind of non-empty subset of "
+        "self-miters (c1 omitted / empty), circuits without (shared) outputs (nothing compared: sat constant 0); startpoints/endpoints: default, explicit empty (= default), every kind of non-empty subset of "
         "the shared ones incl. a single endpoint and internal nodes as endpoints; sets and lists; plus a rejection stream (blackboxes, "
         "names missing in one circuit, node names sat / dif_x / c0_x that clash, duplicate endpoints); non-trivial = accepted miter with "
         "at least one gate per copy; distinct = canonical case hash")
 EXPLANATION = ("miter model written through the API model; its closed form proved to have the stated semantics; model tied to tx.miter by "
                "correspondence; the property is decided on every returned miter by exhaustive evaluation of all free-node valuations")
 SHARD = 20
-HASHSEEDS = {"quick": [0, 1], "thorough": [0, 1, 2, 3]}
+HASHSEEDS = {"quick": [0, 1], "thorough": [0, 1, 2]}
 
 INV = {"and": "nor", "or": "nand", "nand": "or", "nor": "and"}
 BASE = {"and": "and", "nand": "and", "or": "or", "nor": "or", "xor": "xor", "xnor": "xor"}
@@ -137,6 +137,12 @@ def gen_pair(rng):
         c1, rel = {"name": "e", "nodes": [], "bbs": []}, "empty-c1"
     if c1 is not None:
         c1["name"] = rng.choice(["b", c0["name"], "top2"])
+    if rng.random() < 0.07:
+        # nothing to compare: circuits without outputs (or without a shared one) -- `sat` must be constant 0
+        for c in ([c0] if rng.random() < 0.5 or c1 is None else [c0, c1]):
+            for n in c["nodes"]:
+                n[2] = False
+        rel = "no-endpoints:" + rel
     other = c1 if c1 and c1["nodes"] else c0
     sp0 = {n[0] for n in c0["nodes"] if n[1] == "input"}
     sp1 = {n[0] for n in other["nodes"] if n[1] == "input"}
@@ -194,7 +200,7 @@ def gen_reject(rng):
 
 
 def generate(rng, tier):
-    n = 150 if tier == "quick" else 2200
+    n = 150 if tier == "quick" else 1500
     return [gen_pair(rng) if rng.random() < 0.85 else gen_reject(rng) for _ in range(n)]
 
 
@@ -248,7 +254,9 @@ def nontrivial(case, obs):
 
 
 def classify(case, obs):
-    out = ["rel:" + case["rel"].split("+")[0], "result:" + ("ok" if "out" in obs else obs.get("exc", "?"))]
+    out = ["rel:" + case["rel"].split("+")[0].replace("no-endpoints:", ""), "result:" + ("ok" if "out" in obs else obs.get("exc", "?"))]
+    if case["rel"].startswith("no-endpoints:"):
+        out.append("no-endpoints")
     for k in ("S", "E"):
         x = case[k]
         out.append(f"{k}:" + ("default" if x is None else "empty" if not x["v"] else "single" if len(x["v"]) == 1 else "subset") +
